@@ -280,41 +280,63 @@ Inductive bk_call :=
 | CallCount
 | CallSum (lens : list nat) (data : list dat) (fill : dat) (skipna : bool) (ebv : dat)
 | CallMin (lens : list nat) (data : list dat)
-| CallMax (lens : list nat) (data : list dat).
-Inductive bk_result := ResZ (l : list Z) | ResD (l : list dat).
+| CallMax (lens : list nat) (data : list dat)
+| CallAvg (lens : list nat) (data : list dat) (fill : dat) (skipna : bool)
+| CallFrac (lens : list nat) (data : list dat) (cat : Z) (fill : dat).
 
 Definition bk_rechunk (lens : list nat) (o : bk_obj) : bk_obj :=
   mk_obj (o_size o) (bk_split_chunks lens (concat (o_chunks o))) (o_counts o).
 
-Definition bk_step (o : bk_obj) (c : bk_call) : bk_obj * bk_result :=
-  let size := o_size o in
-  match c with
-  | CallCount =>
-      match o_counts o with
-      | Some cs => (o, ResZ cs)                                        (* memoised *)
-      | None => let cs := bk_cells size (bk_hist_chunked Z.add 0 size (map (map (fun i => (i, 1))) (o_chunks o))) in
-                (mk_obj size (o_chunks o) (Some cs), ResZ cs)
-      end
-  | CallSum lens data fill skipna ebv =>
-      let o' := bk_rechunk lens o in
-      (o', ResD (bk_cells size (bk_get_sum_chunked size lens (concat (o_chunks o')) data fill skipna ebv)))
-  | CallMin lens data =>
-      let o' := bk_rechunk lens o in (o', ResD (bk_cells size (bk_get_min size (concat (o_chunks o')) data)))
-  | CallMax lens data =>
-      let o' := bk_rechunk lens o in (o', ResD (bk_cells size (bk_get_max size (concat (o_chunks o')) data)))
+(* get_count: memoised in self.counts *)
+Definition bk_count_step (o : bk_obj) : bk_obj * list Z :=
+  match o_counts o with
+  | Some cs => (o, cs)
+  | None => let cs := bk_cells (o_size o) (bk_hist_chunked Z.add 0 (o_size o) (map (map (fun i => (i, 1))) (o_chunks o))) in
+            (mk_obj (o_size o) (o_chunks o) (Some cs), cs)
   end.
 
-Fixpoint bk_run (o : bk_obj) (calls : list bk_call) : list bk_result :=
-  match calls with
-  | [] => []
-  | c :: r => let '(o', res) := bk_step o c in res :: bk_run o' r
-  end.
+Section BucketHistory.
+  Context {T : Type} (OP : ops T).
+  Inductive bk_result := ResZ (l : list Z) | ResD (l : list dat) | ResF (l : list (option T)).
 
-(* the same call on a fresh object holding the same indices in one chunk *)
-Definition bk_fresh (size : Z) (idxs : list Z) (c : bk_call) : bk_result :=
-  match c with
-  | CallCount => ResZ (bk_cells size (bk_count size idxs))
-  | CallSum _ data fill skipna ebv => ResD (bk_cells size (bk_get_sum size idxs data fill skipna ebv))
-  | CallMin _ data => ResD (bk_cells size (bk_get_min size idxs data))
-  | CallMax _ data => ResD (bk_cells size (bk_get_max size idxs data))
-  end.
+  Definition bk_step (o : bk_obj) (c : bk_call) : bk_obj * bk_result :=
+    let size := o_size o in
+    match c with
+    | CallCount => let '(o', cs) := bk_count_step o in (o', ResZ cs)
+    | CallSum lens data fill skipna ebv =>
+        let o' := bk_rechunk lens o in
+        (o', ResD (bk_cells size (bk_get_sum_chunked size lens (concat (o_chunks o')) data fill skipna ebv)))
+    | CallMin lens data =>
+        let o' := bk_rechunk lens o in (o', ResD (bk_cells size (bk_get_min size (concat (o_chunks o')) data)))
+    | CallMax lens data =>
+        let o' := bk_rechunk lens o in (o', ResD (bk_cells size (bk_get_max size (concat (o_chunks o')) data)))
+    | CallAvg lens data fill skipna =>
+        (* get_average: two get_sum calls (re-chunking idxs); self.counts is neither read nor written *)
+        let o' := bk_rechunk lens o in
+        (o', ResF (bk_cells size (bk_get_average OP size (concat (o_chunks o')) data fill skipna)))
+    | CallFrac lens data cat fill =>
+        (* get_fractions: counts = self.get_count() (memo read or filled), then get_sum of the category indicator *)
+        let '(o1, cs) := bk_count_step o in
+        let o' := bk_rechunk lens o1 in
+        let sums := bk_hist Z.add 0 size (combine (concat (o_chunks o')) (bk_cat_flags cat data)) in
+        (o', ResF (map (fun kc => bk_frac_cell OP (sums (fst kc)) (snd kc) fill) (combine (zrange 0 (Z.to_nat size)) cs)))
+    end.
+
+  Fixpoint bk_run (o : bk_obj) (calls : list bk_call) : list bk_result :=
+    match calls with
+    | [] => []
+    | c :: r => let '(o', res) := bk_step o c in res :: bk_run o' r
+    end.
+
+  (* the same call on a fresh object holding the same indices in one chunk *)
+  Definition bk_fresh (size : Z) (idxs : list Z) (c : bk_call) : bk_result :=
+    match c with
+    | CallCount => ResZ (bk_cells size (bk_count size idxs))
+    | CallSum _ data fill skipna ebv => ResD (bk_cells size (bk_get_sum size idxs data fill skipna ebv))
+    | CallMin _ data => ResD (bk_cells size (bk_get_min size idxs data))
+    | CallMax _ data => ResD (bk_cells size (bk_get_max size idxs data))
+    | CallAvg _ data fill skipna => ResF (bk_cells size (bk_get_average OP size idxs data fill skipna))
+    | CallFrac _ data cat fill => ResF (bk_cells size (bk_get_fraction OP size idxs data cat fill))
+    end.
+End BucketHistory.
+Arguments ResZ {T}. Arguments ResD {T}. Arguments ResF {T}.
